@@ -4142,6 +4142,18 @@ iwrc iwkv_cursor_del(struct iwkv_cursor *cur, iwkv_opflags opflags) {
     rc = _kvblk_key_get(sblk->kvblk, mm, sblk->pi[cur->cnpos], &key);
     fsm->release_mmap(fsm);
     RCGO(rc, finish2);
+    if (db->dbflg & IWDB_COMPOUND_KEYS) {
+      // The stored key carries its compound prefix, the look-up below needs the effective key
+      int step;
+      IW_READVNUMBUF64(key.data, key.compound, step);
+      if (step >= key.size) {
+        rc = IWKV_ERROR_CORRUPTED;
+        iwlog_ecode_error3(rc);
+        goto finish2;
+      }
+      key.size -= step;
+      memmove(key.data, (uint8_t*) key.data + step, key.size);
+    }
 
     lx->key = &key;
     lx->dblk.addr = 0; // do not unlink the node through a stale copy of the database head
